@@ -14,7 +14,10 @@ CONSTANT AuthFrom   \* "distinctTreeTiles": child tiles are checked from the fir
                     \*    (the faulty variant: skips children when two tree-hash subtrees share a tile)
 
 Recs(n) == [i \in 1..n |-> i - 1]
-TrueHash(n, L, K) == MTH(Recs(n), K * Pow2(L), (K + 1) * Pow2(L))
+\* the R-suffixed operators take the record contents explicitly (used by the client model, where
+\* two timelines share a prefix); the plain ones are for a log of n distinct records
+TrueHashR(recs, L, K) == MTH(recs, K * Pow2(L), (K + 1) * Pow2(L))
+TrueHash(n, L, K) == TrueHashR(Recs(n), L, K)
 
 Tile(h, tl, tn, w) == [h |-> h, tl |-> tl, tn |-> tn, w |-> w]
 NoTile == [h |-> 0, tl |-> 0, tn |-> 0, w |-> 0]
@@ -57,7 +60,8 @@ TileParent(t, k, n) ==
     IN IF lo >= max THEN NoTile
        ELSE IF lo + Pow2(t.h) >= max THEN Tile(t.h, tl, tn, max - lo) ELSE Tile(t.h, tl, tn, Pow2(t.h))
 
-TrueTile(n, t) == [i \in 1..t.w |-> TrueHash(n, t.h * t.tl, t.tn * Pow2(t.h) + i - 1)]
+TrueTileR(recs, t) == [i \in 1..t.w |-> TrueHashR(recs, t.h * t.tl, t.tn * Pow2(t.h) + i - 1)]
+TrueTile(n, t) == TrueTileR(Recs(n), t)
 
 \* every tile that exists for a tree of n records (with its width for that tree)
 RECURSIVE Log2Floor(_)
@@ -125,7 +129,7 @@ Corruptions(n, t) ==
 
 \* ---------- the reader, step by step (protocol layer) ----------
 \* served: content handed back for each planned tile.  Outcome: [ok, hashes, saved]
-TreeHashFromTiles(h, n, tiles, served) ==
+TreeHashFromTiles(h, n, tiles, served) ==   \* n: tree size only (no record contents needed)
     LET stx == Stx(0, n)
         part(i) == LET c == stx[i] t == TileParent(TileOf(h, c[1], c[2]), 0, n) p == PosIn(t, tiles)
                    IN HashFromTile(tiles[p], served[p], c[1], c[2])
@@ -139,10 +143,11 @@ ChildOK(h, n, tiles, served, i) ==
     /\ LET j == PosIn(p, tiles) hp == HashFromTile(p, served[j], p.tl * p.h, t.tn)
        IN hp[1] /\ hp[2] = TileHash(served[i])
 
-ReadOutcome(h, n, idx, tiles, served) ==
+\* root: the trusted tree hash for size n
+ReadOutcomeRoot(h, n, root, idx, tiles, served) ==
     LET lenok == \A i \in 1..Len(tiles) : Len(served[i]) = tiles[i].w
-        th == TreeHashFromTiles(h, n, tiles, served)
-        treeok == lenok /\ th[1] /\ th[2] = MTH(Recs(n), 0, n)
+        th == IF lenok THEN TreeHashFromTiles(h, n, tiles, served) ELSE <<FALSE, EmptyH>>
+        treeok == lenok /\ th[1] /\ th[2] = root
         childok == treeok /\ \A i \in AuthStart(h, n)..Len(tiles) : ChildOK(h, n, tiles, served, i)
     IN IF ~childok THEN [ok |-> FALSE, hashes |-> <<>>, saved |-> {}]
        ELSE [ok |-> TRUE,
@@ -152,6 +157,8 @@ ReadOutcome(h, n, idx, tiles, served) ==
                                 p == CHOOSE q \in 1..Len(tiles) : tiles[q].tl = t.tl /\ tiles[q].tn = t.tn
                             IN HashFromTile(tiles[p], served[p], idx[i][1], idx[i][2])[2]],
              saved |-> {<<tiles[i], served[i]>> : i \in 1..Len(tiles)}]
+
+ReadOutcome(h, n, idx, tiles, served) == ReadOutcomeRoot(h, n, MTH(Recs(n), 0, n), idx, tiles, served)
 
 \* ---------- observer predicates (the property) ----------
 ReturnedTrue(n, idx, out) == out.ok => \A i \in 1..Len(idx) : out.hashes[i] = TrueHash(n, idx[i][1], idx[i][2])
